@@ -17,7 +17,7 @@ def show():
             rows.append((name, None, None, None))
             continue
         r = json.load(open(p))
-        target = name.split('-')[0].rstrip('b')
+        target = name[:3]
         rows.append((name, target in r['detected_by'], r['detected_by'], r['with_failing_input']))
     for name, hit, by, wi in rows:
         if by is None:
